@@ -35,9 +35,9 @@ ALGS = ["md5", "sha1", "sha224", "sha256", "sha384", "sha512", "sha3_224", "sha3
 # ---- abstract buffer / file / hash stubs ----------------------------------------------------
 class ABuf:
     def __init__(self, n):
-        if not isinstance(n, int):
-            raise Inconclusive("bytearray() of a non-constant size")
-        self.n = n
+        if not isinstance(n, (int, SymInt)):
+            raise Inconclusive("bytearray() of something that is not a size")
+        self.n = n  # may be symbolic (e.g. sized after the file)
         self.content = None  # (file offset, count) of the last fill
 
 
@@ -54,8 +54,12 @@ class AView:
         hi = self.hi if sl.stop is None else self.lo + sl.stop
         return AView(self.buf, lo, hi)
 
-    def __len__(self):
+    def length(self):
         return self.hi - self.lo
+
+    def __len__(self):
+        n = self.hi - self.lo
+        return int(n)  # a symbolic length realises here (bounded by the engine's realisation cap)
 
     def span(self):
         """(file offset or None if it reaches beyond the filled part, length) as z3 terms + validity condition"""
@@ -111,6 +115,8 @@ def harness(e, cfg):
             remaining = S - state["pos"]
             if remaining <= 0:
                 return state["pos"], 0
+            if not (cap > 0):
+                return state["pos"], 0  # zero-length buffer: the OS reads nothing
             k = e.fresh_int(f"k{state['reads']}", 1, None)
             e.assume(k <= cap)
             e.assume(k <= remaining)
@@ -121,7 +127,7 @@ def harness(e, cfg):
         def readinto(self, view):
             if not isinstance(view, AView):
                 raise Inconclusive("readinto() into an unknown buffer type")
-            off, k = self._next(len(view))
+            off, k = self._next(view.length())
             if not (isinstance(k, int) and k == 0):
                 view.buf.content = (off - view.lo, k + view.lo)  # file offset of buffer index 0, filled up to index
             return k
@@ -168,19 +174,50 @@ def harness(e, cfg):
         hs.append(h)
         return h
 
-    saved = {k: U.__dict__.get(k, None) for k in ("open", "memoryview", "bytearray", "_get_hash_function")}
+    class FakeStat:
+        st_size = S
+
+    class FakeOsPath:
+        @staticmethod
+        def getsize(p):
+            return S
+
+        def __getattr__(self, name):
+            raise Inconclusive(f"os.path.{name} in hash_checksums")
+
+    class FakeOs:
+        path = FakeOsPath()
+
+        @staticmethod
+        def stat(p, *a, **k):
+            return FakeStat()
+
+        @staticmethod
+        def fstat(fd):
+            return FakeStat()
+
+        def __getattr__(self, name):
+            raise Inconclusive(f"os.{name} in hash_checksums")
+
+    saved = {k: U.__dict__.get(k, None) for k in ("open", "memoryview", "bytearray", "_get_hash_function", "os")}
+    if "os" in U.__dict__:
+        U.os = FakeOs()  # the file's size, if asked for, is the symbolic S
     U.open = fake_open
     U.memoryview = lambda b: AView(b) if isinstance(b, ABuf) else (_ for _ in ()).throw(Inconclusive("memoryview of ?"))
     U.bytearray = ABuf
     U._get_hash_function = get_hash
     try:
         out = U.hash_checksums(file_path="/vt/file", hashes=algs)
+    except OSError as exc:
+        raise Inconclusive(f"hash_checksums touched the file system in a way the file stub does not model: {exc}") from exc
     finally:
         for k, v in saved.items():
             if v is None:
                 U.__dict__.pop(k, None)
             else:
                 setattr(U, k, v)
+    if not state["closed"] and state["opened"]:
+        pass  # leaking the handle is not part of this property
     # ---- obligations
     e.prove(state["opened"] == [("/vt/file", state["opened"][0][1])] if state["opened"] else False,
             f"hash_checksums opened {state['opened']} instead of exactly the file it was given", dict(kind="wrong-file"))
